@@ -55,7 +55,10 @@ WH(e, j, w, prev) ==
     ELSE LET st == e.steps[j]  op == st.op
          IN IF OutOfScope(w, op) THEN {}                 \* outside a documented precondition: the rest is not judged
             ELSE IF Rejects(w, op)
-            THEN Fail(st.outcome # "ValueError", "C20.outcome." \o op.k) \cup
+            THEN \* the missing-argument request is not one of the classes C20 enumerates: its exception class is drift only
+                 Fail(st.outcome # "ValueError" /\ op.k # "interpolate_none", "C20.outcome." \o op.k) \cup
+                 Fail(st.outcome \notin {"ValueError", "TypeError"} /\ op.k = "interpolate_none", "impl.outcome." \o op.k) \cup
+                 Fail(st.outcome = "TypeError" /\ op.k = "interpolate_none" /\ ~st.frame, "C20.frame." \o op.k) \cup
                  Fail(st.outcome = "ValueError" /\ ~st.frame, "C20.frame." \o op.k) \cup
                  (IF st.outcome = "ValueError" /\ st.frame THEN WH(e, j + 1, w, prev) ELSE {})
             ELSE IF st.outcome # "ok" THEN {"impl.valid_operation_failed." \o op.k}
@@ -83,5 +86,6 @@ V_wrestore(e) ==
 
 (* C20: refusals outside the Weaver object: constructor length mismatch, non-(N,2) array, unknown dataset / search
    strategy / integration rule / interpolation method names *)
-V_reject_misc(e) == Fail(e.outcome # "ValueError", "C20." \o e.kind)
+V_reject_misc(e) == IF e.kind = "no_sampler" THEN Fail(e.outcome # "ValueError", "impl.outcome.no_sampler")   \* not a class C20 lists
+                    ELSE Fail(e.outcome # "ValueError", "C20." \o e.kind)
 =============================================================================
